@@ -10,6 +10,11 @@ CLAIMED = {
     text="Unbounded proof over all field values (symbolic int-or-None fields, symbolic burst length, every Modulation member / None / non-Modulation, symbolic version): every path of validate/gen_msg/send_msg is checked against the range oracle written from the statement; callers use callee contracts.",
     note="Trusted: PyVC's operator/builtin models (listed in evidence), z3; fields are int|None; socket.sendto is a ghost log append.",
     design="9/C13"),
+ "C01": dict(
+    technique="contract-based deductive verification: PyVC VC generation from the live data_msg.py; gen_msg/parse_msg proved equal to one layout spec (spec/trxd_layout.py), round-trip lemma over the two contracts, plus direct composition parse_msg(gen_msg(m)) on the real bodies; z3",
+    text="Unbounded proof: all field values, symbolic burst length and contents (array theory, skolemised element equality), every modulation, NOPE yes/no, versions 0/1, legacy on/off; the four translation tables checked for all 256 entries.",
+    note="Trusted: PyVC models of struct.pack/unpack, bytearray/array/memoryview/translate, slicing (listed in evidence); soft bits in [-127,127] as the statement quantifies; validate used through its C13 contract.",
+    design="9/C01"),
 }
 NOT_YET = "check not built yet in this session (design in DESIGN.md section 9); will be claimed when its obligations are discharged"
 
